@@ -461,6 +461,16 @@ func init() {
 			l.set32(madF32(u32(l.s[0]), u32(l.s[2]), u32(l.s[1])))
 		}},
 
+		// CDNA3 ("MI300" ISA VOP2 23 / 24): V_FMAMK_F32: D.f = fma(S0.f, K, S1.f); V_FMAAK_F32: D.f = fma(S0.f, S1.f, K)
+		"v_fmamk_f32": {w: [3]int{1, 1, 1}, k: [3]vk{kF32, kF32, kF32}, dw: 1, dk: kF32, f: func(l *lane) {
+			l.set32(fmaF32(u32(l.s[0]), u32(l.s[2]), u32(l.s[1])))
+		}},
+		"v_fmaak_f32": {w: [3]int{1, 1, 1}, k: [3]vk{kF32, kF32, kF32}, dw: 1, dk: kF32, f: func(l *lane) {
+			l.set32(fmaF32(u32(l.s[0]), u32(l.s[1]), u32(l.s[2])))
+		}},
+		// CDNA3 ("MI300" ISA VOP1 56): V_MOV_B64: D.u64 = S0.u64
+		"v_mov_b64": {w: [3]int{2}, dw: 2, f: func(l *lane) { l.d = l.s[0] }},
+
 		// ---- carry arithmetic. 3.x: "VCC is always fully written; there are no partial mask updates."
 		// V_ADD_U32 (GCN3) = V_ADD_CO_U32 (CDNA3): "D.u = S0.u + S1.u; VCC[threadId] = carry-out"
 		"v_add_co_u32": {w: [3]int{1, 1}, dw: 1, cout: true, f: func(l *lane) {
